@@ -217,6 +217,16 @@ func splitSort(s string) (string, string) {
 	return s[:i], strings.TrimSpace(s[i+1:])
 }
 
+// arrayKV splits "(Array K V)" into its index and element sorts.
+func arrayKV(s Sort) (Sort, Sort) {
+	t := strings.TrimSpace(string(s))
+	if !strings.HasPrefix(t, "(Array ") || !strings.HasSuffix(t, ")") {
+		return SInt, SInt
+	}
+	k, v := splitSort(t[7 : len(t)-1])
+	return Sort(k), Sort(v)
+}
+
 func Store(arr, idx, v Term) Term { return app(arr.Sort, "store", arr, idx, v) }
 
 func ToReal(t Term) Term {
